@@ -100,6 +100,7 @@ func (e *Engine) VerifyFunc(name string, opts UnitOpts) (u *Unit, err error) {
 	}()
 	st := &State{reach: tTrue, heap: map[string]T{}}
 	st.alloc = u.fresh("alloc0", SInt)
+	u.alloc0 = st.alloc
 	u.emitFact(app(SBool, ">=", st.alloc, intLit(1000)))
 	f := &Frame{u: u, fn: fn, vals: map[ssa.Value]*V{}, top: true, contract: ct, params: map[string]*V{}, lets: map[string]*V{},
 		iters: map[ssa.Value]*iterInfo{}, callOrd: map[string]int{}, litOrd: map[string]int{}, usedAnchors: map[string]bool{}}
